@@ -40,6 +40,8 @@ OTHERS = {
     "button": ("btn = Button(25)", "if btn.is_pressed():\n        sleep(1)"),
     "pot": ('pot = Potentiometer("A1")', "sleep(pot.read())"),
     "ultra": ("us = Ultrasonic(26, 27)", "sleep(us.measure_distance())"),
+    # run-time // and % pull in the arithmetic helpers (and with them <math.h>, which is not a library to request)
+    "math": ("kk = 7", "kk = (kk + 3) % 5 + kk // 2"),
 }
 PORTS = (None, "", "/dev/ttyUSB0", "COM12", "/dev/cu.usb modem 1")
 _PORTS_DONE: Set[tuple] = set()
@@ -123,7 +125,7 @@ def build(n_servo_setup: int, n_servo_loop: int, n_par: int, n_i2c: int, others:
 
 def generate(tier: str) -> List[dict]:
     cases = []
-    other_subsets = [()] + [(o,) for o in OTHERS] + (list(itertools.combinations(OTHERS, 2)) if tier == "thorough" else [("button", "led"), ("button", "pot"), ("ultra", "rgb"), ("motor", "buzzer")])
+    other_subsets = [()] + [(o,) for o in OTHERS] + (list(itertools.combinations(OTHERS, 2)) if tier == "thorough" else [("button", "led"), ("button", "pot"), ("ultra", "rgb"), ("motor", "buzzer"), ("math", "led")])
     for ss, sl in [(a, b) for a in range(3) for b in range(3) if a + b <= 2]:
         for n_par in range(3):
             for n_i2c in range(3):
@@ -214,10 +216,12 @@ def analyse(case: dict) -> Optional[str]:
 
     tmp = tempfile.mkdtemp(prefix="c14-", dir=str(BUILD))
     try:
-        pio.write_project(__import__("pathlib").Path(tmp), "void setup() {}\nvoid loop() {}\n", port="COM3", platform="atmelavr", board="uno", lib_deps=libs)
+        pio.write_project(__import__("pathlib").Path(tmp), text, port="COM3", platform="atmelavr", board="uno", lib_deps=libs)
         cp = configparser.ConfigParser(interpolation=None)
         cp.read(str(__import__("pathlib").Path(tmp) / "platformio.ini"), encoding="utf-8")
         written = cp[cp.sections()[0]].get("lib_deps", "").split()
+        if (__import__("pathlib").Path(tmp) / "src" / "main.cpp").read_text(encoding="utf-8") != text:
+            return "src/main.cpp of the written project is not the emitted firmware"
     except Exception as exc:  # noqa: BLE001
         return f"writing the project failed: {type(exc).__name__}: {exc}"
     finally:
@@ -230,7 +234,7 @@ def analyse(case: dict) -> Optional[str]:
         for port in PORTS:
             tmp = tempfile.mkdtemp(prefix="c14-", dir=str(BUILD))
             try:
-                pio.write_project(__import__("pathlib").Path(tmp), "void setup() {}\nvoid loop() {}\n", port=port, platform="atmelavr", board="uno", lib_deps=libs)
+                pio.write_project(__import__("pathlib").Path(tmp), text, port=port, platform="atmelavr", board="uno", lib_deps=libs)
                 cp = configparser.ConfigParser(interpolation=None)
                 cp.read(str(__import__("pathlib").Path(tmp) / "platformio.ini"), encoding="utf-8")
                 written = cp[cp.sections()[0]].get("lib_deps", "").split()
